@@ -38,7 +38,7 @@ class Harness:
                  flags=(), backend='sat', timeout=300, inputs=(), bounded=None,
                  expect_loop_obligations=0, defines=(), entry='harness', note='',
                  stubs=(), assumptions=(), replay=None, nondet_static=False, group=None,
-                 object_bits=None, no_canary=False, plain=False, ignore=(), gen_bodies=None):
+                 object_bits=None, no_canary=False, plain=False, ignore=(), gen_bodies=None, recursive=False):
         self.name = name
         self.prop = prop
         self.parts = parts          # list of str | extract.Fn
@@ -62,6 +62,7 @@ class Harness:
         self.no_canary = no_canary
         self.ignore = list(ignore)    # regexes on obligation descriptions that are not obligations of this property
         self.gen_bodies = gen_bodies  # regex: body-less functions get a havocking body (goto-instrument --generate-function-body)
+        self.recursive = recursive  # --enforce-contract-rec: recursive calls are assumed to satisfy the contract being checked (induction on the call depth)
         self.plain = plain      # no DFCC instrumentation: assertions over the real bodies, loops fully unwound
         self.result = None
 
@@ -159,7 +160,7 @@ def run_harness(h, outdir, tier):
         return res
     gi = ['goto-instrument', '--dfcc', h.entry]
     if h.enforce:
-        gi += ['--enforce-contract', h.enforce]
+        gi += ['--enforce-contract-rec' if h.recursive else '--enforce-contract', h.enforce]
     for r in h.replace:
         gi += ['--replace-call-with-contract', r]
     if h.loop_contracts:
